@@ -325,7 +325,8 @@ class VolumeImg(VolumeGrid):
         order[axis2] = axis1
         new_affine = new_affine.T[order].T
         return VolumeImg(reordered_data, new_affine, self.world_space,
-                                           metadata=self.metadata)
+                                           metadata=self.metadata,
+                                           interpolation=self.interpolation)
 
     #---------------------------------------------------------------------------
     # Private methods
